@@ -45,44 +45,44 @@ type obsRec struct {
 
 // Exec is one worker's interpreter state; everything below "per path" is reset for each path.
 type Exec struct {
-	prog    *ssa.Program
-	pkg     *ssa.Package
-	sol     *Solver
-	run     *harnessRun
+	prog *ssa.Program
+	pkg  *ssa.Package
+	sol  *Solver
+	run  *harnessRun
 	// per path
-	globals   map[*ssa.Global]*Value
-	decisions []int32
-	pos       int
-	pc        []*Term
-	hint      Model
-	hintValid bool
-	blind     bool
-	ev        *evaluator
-	nvars     int
-	nondet    []nondetRec
-	observed  []obsRec
-	steps     int64
-	atomIDs   []int64
-	astrSeq   int
-	astrVars  map[string]*Term
-	newWork   []workItem
-	events    []pathEvent
+	globals    map[*ssa.Global]*Value
+	decisions  []int32
+	pos        int
+	pc         []*Term
+	hint       Model
+	hintValid  bool
+	blind      bool
+	ev         *evaluator
+	nvars      int
+	nondet     []nondetRec
+	observed   []obsRec
+	steps      int64
+	atomIDs    []int64
+	astrSeq    int
+	astrVars   map[string]*Term
+	newWork    []workItem
+	events     []pathEvent
 	reachedEnd bool
 	kfExcluded bool
 
 	// models of the environment
-	ts         *threadState
-	analyzers  map[*Value]*analysisModel
+	ts           *threadState
+	analyzers    map[*Value]*analysisModel
 	lastAnalyzer *Value
-	poolItems  map[*Value][]Value
-	inPool     map[*Value]string
-	poolOrder  []*Value
-	frozen     map[*Value]string
-	frozenMaps map[*Map]string
-	permMaps   bool
-	havoc      bool
-	staleObjs  int
-	mapSeq     int
+	poolItems    map[*Value][]Value
+	inPool       map[*Value]string
+	poolOrder    []*Value
+	frozen       map[*Value]string
+	frozenMaps   map[*Map]string
+	permMaps     bool
+	havoc        bool
+	staleObjs    int
+	mapSeq       int
 
 	merge *mergeCtx
 	depth int
